@@ -99,7 +99,7 @@ CLAIMS = {
    text='Observer C13 (down machines accept and release nothing, a failure discards exactly the part in process and reports it once, callbacks once per occurrence in registration order, repeated calls are no-ops, uptime and utilisation equal accumulated operational / processing time, a work order keeps its target down for exactly its duration, a finished part leaves after restoration) checked by TLC on the closed specification and on recorded runs.',
    technique='TLA+ closed spec Floor.tla model-checked with TLC over configuration families (all tie-breaks) + TLC trace validation of real runs against the property observers FloorObs.tla (sampled TLC behaviours replayed on the code with forced dispatch order)'),
  'C15': dict(engine='floor', ref='DESIGN.md 3.2, 6', note=FLOOR_NOTE,
-   text='Observer C15 (last level / resource record equals the live value, exactly one received / produced / supplied / failure record per occurrence observed through public callbacks with time, part, quality and value, counters equal record counts) checked by TLC on every recorded step; the resource-record clauses are also checked on the pool traces of PoolsTrace.tla.',
+   text='Observer C15 (last level / resource record equals the live value, exactly one received / produced / supplied / failure record per occurrence observed through public callbacks with time, part, quality and value, counters equal record counts) checked by TLC on every recorded step; the resource-record clauses are also checked on the pool traces (PoolsTrace.tla), the work-order records on the maintainer traces (MaintTrace.tla), the schedule records on the scheduler traces (SchedTrace.tla), and the exported event-trace file against the observed dispatch sequence.',
    technique='TLA+ closed spec Floor.tla model-checked with TLC over configuration families (all tie-breaks) + TLC trace validation of real runs against the property observers FloorObs.tla (sampled TLC behaviours replayed on the code with forced dispatch order)'),
  'C16': dict(engine='floor', ref='DESIGN.md 3.2, 6', note=FLOOR_NOTE,
    text='Observer C16 (value = start + history, each entry with time, non-zero change and running total; source value = minus supplied value; sink value = received value; batch = sum of parts; net value = sum over assets) checked by TLC on every recorded step of the scenario families.',
